@@ -462,6 +462,7 @@ func equalCoreRules(c *Ctx, leafSemantics bool) {
 	curriedCompat(c, "equal", bodies, bodyRun)
 	c.Rep.analysed("equal_residuals", n)
 	methodBeforeOperator(c, "equal", "canEqual", methodPredicateName(c.R.repo, "equal.equalMethodInputParam", "Equal"), "R-method", "`==`")
+	namedFieldConsultsMethod(c, "equal", methodPredicateName(c.R.repo, "equal.equalMethodInputParam", "Equal"), "Equal")
 	runG9(c, "equal.canEqual")
 	g9Methods(c, methodSpec{"equal.equalMethodInputParam", "Equal", 1, 1, types.Bool})
 }
